@@ -162,6 +162,9 @@ func streamC44(h *H) {
 	bigs := []big{{480000, 2, 0}}
 	if h.Shard == 0 || h.Thorough() {
 		bigs = append(bigs, big{maxEntries + 1 + h.Intn(3), 2, 1})
+		// ONE packer collecting tiny blobs until HeaderFull() queues it: the packer must be handed
+		// over with exactly MaxHeaderEntries entries (entries of 41 resp. 37 bytes)
+		bigs = append(bigs, big{maxEntries + 2 + h.Intn(3), 1, h.Intn(2)})
 	}
 	if h.Thorough() {
 		bigs = append(bigs, big{maxEntries - h.Intn(2), 2, 1}, big{maxEntries + 5, 1, 1}, big{2*maxEntries - 2 - h.Intn(4), 3, h.Intn(2)}, big{600000 + h.Intn(1000), 3, h.Intn(2)})
